@@ -21,6 +21,7 @@ def run(ctx: Ctx):
     SC.mode_table(ctx, ["optimal_completion"], "S1")
     # which prefixes exist is decided by the kernel's shared length bookkeeping (the eos corrections)
     SC.batch_independence(ctx, "S1")
+    SC.no_eos_mask_uses_its_own_extent(ctx, "S1")
     SC.lens_helper_total(ctx, "S1")
     oc = pkg.func("_string::optimal_completion")
     f = pkg.func("_string::hard_optimal_completion_distillation_loss")
